@@ -456,6 +456,122 @@ theorem c02_float_roundtrip (fenv : FEnv) (r : Str) (h : fenv.lookup r = some (s
     BConv.apply fenv .float r = .ok (.float r) := by
   simp [BConv.apply, h]
 
+/-! ### 4b. per annotation: the field's `type=` reads the canonical tokens back and `postprocess`
+      returns the typed value (ties `get_arg_options` / `postprocess` to the value written) -/
+
+/-- canonical token of a scalar: `str(v)`, enum members by name -/
+def tokenOf : Scalar → Str
+  | .int i => printInt i
+  | .float r => r
+  | .str s => s
+  | .bool b => if b then "True".toList else "False".toList
+  | .path p => p
+  | .enum _ n => n
+  | .none => []
+
+/-- `v` is a value of base type `b` that has a token form in the environment -/
+def HasBTy (fenv : FEnv) (v : Scalar) : BTy → Prop
+  | .int => ∃ i, v = .int i
+  | .float => ∃ r, v = .float r ∧ fenv.lookup r = some (some r)
+  | .str => ∃ s, v = .str s
+  | .bool => ∃ b, v = .bool b
+  | .path => ∃ p, v = .path p ∧ parsePath p = .ok (.path p)
+  | .any => ∃ s, v = .str s
+  | .enum c ms => ∃ m, v = .enum c m ∧ m ∈ ms
+
+/-- every base converter reads the canonical token of a value of its type back to that value -/
+theorem bconv_token (fenv : FEnv) (b : BTy) (v : Scalar) (h : HasBTy fenv v b) :
+    (bconvOf b).apply fenv (tokenOf v) = .ok v := by
+  cases b with
+  | int => obtain ⟨i, rfl⟩ := h; exact c02_int_roundtrip i
+  | float => obtain ⟨r, rfl, hr⟩ := h; simp [bconvOf, BConv.apply, tokenOf, hr]
+  | str => obtain ⟨s, rfl⟩ := h; rfl
+  | bool => obtain ⟨b, rfl⟩ := h; exact c02_bool_roundtrip fenv b
+  | path => obtain ⟨p, rfl, hp⟩ := h; simpa [bconvOf, BConv.apply, tokenOf] using hp
+  | any => obtain ⟨s, rfl⟩ := h; rfl
+  | enum c ms => obtain ⟨m, rfl, hm⟩ := h; simp [bconvOf, BConv.apply, tokenOf, hm]
+
+/-- an action without `choices` whose `type=` is a stateless base converter reads a whole list of
+    canonical tokens back, whatever the closure counters are -/
+theorem getValuesList_tokens (fenv : FEnv) (act : Act) (i : Nat) (cs : List Nat) (b : BTy)
+    (hconv : act.conv = .base (bconvOf b)) (hch : act.choices = none) (vs : List Scalar)
+    (hvs : ∀ v ∈ vs, HasBTy fenv v b) :
+    getValuesList fenv act i cs (vs.map tokenOf) = .ok (vs, cs) := by
+  induction vs with
+  | nil => rfl
+  | cons v rest ih =>
+    have hv := bconv_token fenv b v (hvs v (by simp))
+    have hone : getValue fenv act i cs (tokenOf v) = .ok (v, cs) := by
+      unfold getValue
+      simp only [hconv, Conv.apply, hv, hch]
+    simp only [List.map_cons, getValuesList, hone, ih (fun x hx => hvs x (by simp [hx]))]
+
+/-- **`List[T]` field** (T a base type other than Any): `get_arg_options` gives `nargs='*'` with
+    T's converter, and `postprocess` returns the list — any length, the empty list included. -/
+theorem c02_field_list (name : Str) (b : BTy) (hb : b ≠ .any) (d : DefaultV) (hd : d ≠ .value (.sc .none))
+    (vs : List Scalar) :
+    let f : FieldSpec := { name := name, ty := { inner := .list (.base b), optional := false }, default := d }
+    (∃ ao, argOptions f = some ao ∧ ao.nargs = .star ∧ ao.conv = .base (bconvOf b) ∧ ao.choices = none) ∧
+      postprocess f (segVal .star vs) = .ok (.list vs) := by
+  intro f
+  constructor
+  · refine ⟨{ nargs := .star, conv := .base (bconvOf b), choices := none, required := decide (d = .missing),
+               default := defaultVal d, isBool := false }, ?_, rfl, rfl, rfl⟩
+    simp only [argOptions, f]
+    have : (d = DefaultV.value (Val.sc Scalar.none)) = False := by simp [hd]
+    simp only [this, decide_false, Bool.false_eq_true, Bool.or_self, ↓reduceIte]
+    cases b <;> simp_all [containerConv]
+  · have : segVal .star vs = .list vs := by
+      unfold segVal; split <;> simp_all
+    rw [this]
+    simp [postprocess, f, tupleToList]
+
+/-- **`Tuple[T, ...]` field**: `nargs='*'`, T's converter, and `postprocess` turns argparse's list
+    into a tuple -/
+theorem c02_field_vtuple (name : Str) (b : BTy) (d : DefaultV) (hd : d ≠ .value (.sc .none))
+    (vs : List Scalar) :
+    let f : FieldSpec := { name := name, ty := { inner := .vtuple (.base b), optional := false }, default := d }
+    (∃ ao, argOptions f = some ao ∧ ao.nargs = .star ∧ ao.conv = .base (bconvOf b) ∧ ao.choices = none) ∧
+      postprocess f (segVal .star vs) = .ok (.tuple vs) := by
+  intro f
+  constructor
+  · refine ⟨{ nargs := .star, conv := .base (bconvOf b), choices := none, required := decide (d = .missing),
+               default := defaultVal d, isBool := false }, ?_, rfl, rfl, rfl⟩
+    simp only [argOptions, f]
+    have : (d = DefaultV.value (Val.sc Scalar.none)) = False := by simp [hd]
+    simp only [this, decide_false, Bool.false_eq_true, Bool.or_self, ↓reduceIte, convOfItem]
+  · have : segVal .star vs = .list vs := by
+      unfold segVal; split <;> simp_all
+    rw [this]
+    simp [postprocess, f, listToTuple]
+
+/-- **plain `Enum` field**: argparse reads the member NAME as a string under `choices`, and
+    `postprocess` maps the name back to the member -/
+theorem c02_field_enum (name cls : Str) (ms : List Str) (m : Str) (hm : m ∈ ms) (d : DefaultV)
+    (hd : d ≠ .value (.sc .none)) :
+    let f : FieldSpec := { name := name, ty := { inner := .sc (.base (.enum cls ms)), optional := false }, default := d }
+    ((argOptions f).map (fun ao => (ao.nargs, ao.conv, ao.choices)) = some (.one, .base .str, some ms)) ∧
+      postprocess f (segVal .one [.str m]) = .ok (.sc (.enum cls m)) := by
+  intro f
+  constructor
+  · simp only [argOptions, f]
+    have : (d = DefaultV.value (Val.sc Scalar.none)) = False := by simp [hd]
+    simp only [this, decide_false, Bool.false_eq_true, Bool.or_self, ↓reduceIte, Option.map_some]
+  · simp [postprocess, f, segVal, hm]
+
+/-- **`Optional[T]` scalar field**: `nargs='?'`, never required; one token gives the value, the bare
+    option gives `None` -/
+theorem c02_field_optional (name : Str) (b : BTy) (d : DefaultV) (v : Scalar) :
+    let f : FieldSpec := { name := name, ty := { inner := .sc (.base b), optional := true }, default := d }
+    (∃ ao, argOptions f = some ao ∧ ao.nargs = .opt ∧ ao.conv = .base (bconvOf b) ∧ ao.required = false) ∧
+      postprocess f (segVal .opt [v]) = .ok (.sc v) ∧ postprocess f (segVal .opt []) = .ok (.sc .none) := by
+  intro f
+  refine ⟨⟨{ nargs := .opt, conv := .base (bconvOf b), choices := none, required := false,
+             default := defaultVal d, isBool := false }, ?_, rfl, rfl, rfl⟩, ?_, ?_⟩
+  · simp [argOptions, f, convOfItem]
+  · simp [postprocess, f, segVal]
+  · simp [postprocess, f, segVal]
+
 /-! ### 5. non-vacuity: a concrete heterogeneous command line meets every hypothesis -/
 
 def demoTbl : List Act :=
